@@ -329,9 +329,22 @@ class Registry:
 _parse_cache = {}
 
 
+class _Implies(ast.NodeTransformer):
+    """implies(a, b) is a short-circuit form: (not a) or b."""
+
+    def visit_Call(self, node):
+        self.generic_visit(node)
+        if isinstance(node.func, ast.Name) and node.func.id == "implies" and len(node.args) == 2:
+            new = ast.BoolOp(op=ast.Or(), values=[ast.UnaryOp(op=ast.Not(), operand=node.args[0]), node.args[1]])
+            return ast.copy_location(new, node)
+        return node
+
+
 def _parse(text):
     if text not in _parse_cache:
-        _parse_cache[text] = ast.parse(text.strip(), mode="eval").body
+        tree = ast.parse(text.strip(), mode="eval")
+        tree = ast.fix_missing_locations(_Implies().visit(tree))
+        _parse_cache[text] = tree.body
     return _parse_cache[text]
 
 
